@@ -202,11 +202,9 @@ impl Thread {
 
 impl Drop for ThreadPool {
     fn drop(&mut self) {
-        if let Some(mut recovery_thread) = self.recovery_thread.take() {
-            if let Some(thread) = recovery_thread.0.take() {
-                thread.join().unwrap();
-            }
-        }
+        // The recovery thread never exits, so it is detached rather than joined:
+        // joining it here would block the caller forever if `stop` was not called first.
+        self.recovery_thread.take();
 
         for thread in &mut *self.threads.lock().unwrap() {
             if let Some(thread) = thread.os_thread.take() {
